@@ -78,6 +78,8 @@ class C20(Prop):
                     ops.append("addfn:%s:%s" % (vlib.hx(f), rng.choice(["arg0", "void", "c" + enc_value(rng.choice(VALUES))])))
                 else:
                     ops.append("prepare:" + rng.choice(["opt", "noopt"]))
+            if rng.random() < 0.15:
+                ops += ["badprepare", rng.choice(["exec:0", "run:0", "dump"]), "exec:0"]
             if rng.random() < 0.2:
                 ops.append("dump")
             objs = [gen.enc_struct(gen.rand_object(rng))]
